@@ -8,8 +8,8 @@
 //!     re-laid out from the file's own token texts);
 //!   * hand-written near misses, code-point screen cases, truncations.
 //! Cases (kind `lex`):    <source> <token items | SCREEN> <flag>       token-level observation.
-//! `flag` is `q` when the real lexer returned a token whose text does not have the documented
-//! shape of its kind (see `parse_obs::lex_obs`), `-` otherwise.
+//! `flag` is `-`, or `shape=…` naming the known lexer-generator artefacts present in the text
+//! (see `parse_obs::lex_obs`); it is what known_findings.d/parser.json matches on.
 //! The harness itself decides: panics, and spans outside the source / off character boundaries.
 #[path = "../parse_obs.rs"]
 mod parse_obs;
@@ -26,12 +26,13 @@ struct Ctx {
 impl Ctx {
     fn parse_case(&mut self, src: &str, nontrivial: bool, origin: &str) {
         let flag = match lex_obs(src) {
-            Some((_, true)) => "q",
-            _ => "-",
+            Some((_, f)) => f,
+            None => "-".to_string(),
         };
-        if flag == "q" {
-            self.out.count("flag:odd-token-text");
+        if flag != "-" {
+            self.out.count(&format!("flag:{}", flag));
         }
+        let flag = flag.as_str();
         self.out.count(&format!("origin:{}", origin));
         match observe(src) {
             Obs::Ok(full, stripped, spans) => {
@@ -64,11 +65,11 @@ impl Ctx {
             None => {
                 self.out.case(false, "lex", &[esc(src), "SCREEN".into(), "-".into()]);
             }
-            Some((items, odd)) => {
-                if odd {
-                    self.out.count("lex:odd-token-text");
+            Some((items, flag)) => {
+                if flag != "-" {
+                    self.out.count(&format!("lex:{}", flag));
                 }
-                self.out.case(items.len() > 1, "lex", &[esc(src), esc(&items.join(",")), if odd { "q" } else { "-" }.into()]);
+                self.out.case(items.len() > 1, "lex", &[esc(src), esc(&items.join(",")), flag]);
             }
         }
     }
